@@ -158,15 +158,15 @@ func c09Scenarios() []*concScenario {
 		x.data["session"] = s
 		parseNotify(s, frame4(env.MAC1, ip4a))
 		threads(
-			func() {
+			func() { // the packet loop: a frame, then the DHCP handler recording an acknowledged address
 				parseNotify(s, frame4(env.MAC2, ip4a))
+				s.DHCPv4Update(env.MAC1, ip4b, packet.NameEntry{Name: "n1"})
 			},
 			func() {
 				s.FindByMAC(env.MAC1)
 				s.FindMACEntry(env.MAC1)
 			},
-			func() {
-				s.DHCPv4Update(env.MAC1, ip4a, packet.NameEntry{Name: "n1"})
+			func() { // an API goroutine using the DHCP offer accessors
 				s.SetDHCPv4IPOffer(env.MAC1, ip4b, packet.NameEntry{})
 				s.DHCPv4IPOffer(env.MAC1)
 			},
@@ -357,9 +357,9 @@ func c09Run(c *core.Ctx, args []string) {
 	c.Res.Rule = "stateless DFS over every schedule of each harness H1..H9 (2-3 API/packet-loop threads plus the goroutines the code starts itself plus the clock) up to the deviation bound; every execution runs to completion under the controlled scheduler; oracles: no deadlock, no panic, no data race (race detector build, scheduler hand-offs invisible to it), table invariant at the final quiescent point, no goroutine left after Close. distinct = distinct observation vectors"
 	c.Res.Assumptions = []string{"scheduling points at every lock, channel, spawn, timer and connection write of the instrumented packages; unsynchronised accesses are caught by the race detector on the explored schedules rather than interleaved", "bounded by the deviation (preemption) bound and the clock horizon; at most 3 harness threads"}
 	name := strings.TrimSuffix(c.Job, ".race")
-	bound := 1
+	bound := 2
 	if c.Thorough() {
-		bound = 2
+		bound = 3
 	}
 	if v, ok := c.Args["bound"]; ok {
 		bound = v
@@ -382,9 +382,9 @@ func init() {
 				names = append(names, sc.name)
 				rnames = append(rnames, sc.name+".race")
 			}
-			n := 2
+			n := 4
 			if tier == "thorough" {
-				n = 4
+				n = 8
 			}
 			jobs := concJobs(names, n, false, 1700)
 			jobs = append(jobs, concJobs(rnames, n, true, 1700)...)
